@@ -172,10 +172,78 @@ pub fn decode(s: &mut Src) -> Case {
     Case { pdus, chunk: s.pick(&[0u16, 0, 1, 5, 1460]), user_id: s.pick(&[1004u16, 1001, 65535, 0x8000]) }
 }
 
+/// the same streams through the real entry point: Connector::connect over TLS, fast-path PDUs sent by the server
+/// thread right after the activation, cut into TLS records of `chunk` bytes
+pub fn run_tls(c: &Case) -> Outcome {
+    use crate::tls::{self, FinalReply, NlaCfg, TlsServerCfg};
+    let mut out = Outcome::new();
+    out.nontrivial(true);
+    let mut profile = ServerProfile::simple(c.user_id, 0x0BAD_CAFE);
+    let mut want: Vec<Ev> = Vec::new();
+    for p in &c.pdus {
+        let frame = wire::fast_path_pdu(&p.updates, p.first, p.long_len);
+        if frame.bytes.len() > 0x7FFF {
+            continue;
+        }
+        for u in &p.updates {
+            if let FpUpdate::Bitmap(rects) = u {
+                for r in rects {
+                    want.push(Ev { l: r.left, t: r.top, r: r.right, b: r.bottom, w: r.width, h: r.height, bpp: r.bpp, comp: r.flags & 1 != 0, data: r.data.clone() });
+                }
+            }
+        }
+        profile.post_activation.push(frame.bytes);
+    }
+    let n = profile.post_activation.len();
+    let cfg = ClientCfg { nla: false, ..ClientCfg::simple() };
+    let scfg = TlsServerCfg { identity: 1, reply: refimpl::wire::NegReply::Response { flags: 0, selected: 1 }, nla: None::<NlaCfg>, profile, record_cut: c.chunk };
+    let _ = FinalReply::Honest;
+    // events are collected through a shared cell because run_tls owns the read loop
+    let got: std::cell::RefCell<Vec<Ev>> = std::cell::RefCell::new(Vec::new());
+    let run = tls::run_tls_with_events(&cfg, &scfg, 5 + n, true, &mut |b: rdp::core::event::BitmapEvent| {
+        got.borrow_mut().push(Ev { l: b.dest_left, t: b.dest_top, r: b.dest_right, b: b.dest_bottom, w: b.width, h: b.height, bpp: b.bpp, comp: b.is_compress, data: b.data })
+    });
+    if run.client_timeout || run.report.timeout {
+        out.fail("inconclusive:timeout", "a socket timeout hit; not counted as a violation");
+        return out;
+    }
+    match &run.connect {
+        Res::Ok(()) => {}
+        Res::Err(e) => {
+            out.fail("fastpath:tls:connect-error", e.clone());
+            return out;
+        }
+        Res::Panic(p) => {
+            fail_panic(&mut out, "Connector::connect", p);
+            return out;
+        }
+    }
+    for r in &run.reads {
+        match r {
+            Res::Ok(()) => {}
+            Res::Err(e) => {
+                out.fail("fastpath:tls:read-error", format!("read failed: {}", e));
+                return out;
+            }
+            Res::Panic(p) => {
+                fail_panic(&mut out, "RdpClient::read", p);
+                return out;
+            }
+        }
+    }
+    let got = got.into_inner();
+    if got != want {
+        out.fail("fastpath:tls:events-differ", format!("{} events delivered through TLS, {} rectangles sent", got.len(), want.len()));
+    }
+    out
+}
+
 pub fn check(rep: &Report) {
     rep.assume("updates are uncompressed and unfragmented (the property's stated domain); fast-path security flags are 0 (TLS)");
     rep.assume("unsupported update kinds carry opaque bodies; the client is only required to skip them");
     rep.random("streams", rep.tier.n(60_000, 4_000_000), 400, decode, run);
+    crate::tls::pki();
+    rep.random("tls", rep.tier.n(300, 10_000), 300, decode, run_tls);
     rep.require("streams", "non-bitmap-before-bitmap", 1000);
     rep.require("streams", "multi-bitmap-update", 1000);
 }
